@@ -15,7 +15,7 @@ RULE = ('all event sequences up to a length bound over 16 prior events, then 7 p
 F = CFGF
 SCHEMA = [Opt('int', b'i', 0, 7), Opt('str', b's', 0, b'd'), Opt('intl', b'il', 0, b'{1}'),
           Opt('sec', b'sec', 0, None, [Opt('int', b'a', 0, 1)]), Opt('func', b'include', func='include'),
-          Opt('int', b'v', 0, 0, cbs=('valid:0',))]
+          Opt('int', b'v', 0, 0, cbs=('valid:0',)), Opt('sec', b'mm', F['MULTI'], None, [Opt('int', b'a', 0, 1)])]
 FILES = ['file %s file %s' % (hx(b'bad.conf'), hx(b'i = 1\nbogus = = 2\n')), 'file %s file %s' % (hx(b'open.conf'), hx(b's = "abc\n')),
          'file %s file %s' % (hx(b'self.conf'), hx(b'include("self.conf")\n')), 'file %s file %s' % (hx(b'good.conf'), hx(b'i = 42\n')),
          'file %s file %s' % (hx(b'opensec.conf'), hx(b'sec { a = 5\n'))]
@@ -45,20 +45,25 @@ EVENTS = {
     'reinit': ['free 0', 'init 0 0 0'],
     'other-ctx': ['parse_buf 1 ' + hx(b'i = 77\ns = "other'), 'parse_buf 1 ' + hx(b'il += {5}\n')],
 }
-PROBES = ['parse_buf 2 ' + hx(b'i = 3\n'), 'dump 2', 'parse_buf 2 ' + hx(b's = "q" il += {2}\nsec { a = 4 }\n'), 'dump 2',
+BARE = [Opt('sec', b'mm', F['MULTI'], None, [Opt('int', b'a', 0, 1)]), Opt('str', b's', 0, b'd')]
+PROBES = [  # first of all, in a context whose creation converts no number: a section INDEX inside an option path is
+          # converted before any value (whatever errno the history left behind is still there)
+          'init 4 1 0', 'parse_buf 4 ' + hx(b'mm { }\nmm { }\n"mm=1|a" = 7\n"mm=0x0|a" = 8\n'), 'dump 4', 'init 2 0 0',
+          'parse_buf 2 ' + hx(b'i = 3\n'), 'dump 2', 'parse_buf 2 ' + hx(b's = "q" il += {2}\nsec { a = 4 }\n'), 'dump 2',
           'lex ' + hx(b'a "b c" \'d\' /* e */ # f\n{ }'), 'parse_buf 2 ' + hx(b'include("good.conf")\n'), 'dump 2',
           'parse_buf 2 ' + hx(b's = "' + b'z' * 40 + b'"\n'), 'dump 2', 'setmulti 2 69 35', 'dump 2',
           # the contexts with a history: what a parse reports (code, file, line, message) does not depend on it
           'parse_buf 0 ' + hx(b'i = 3\n\nbogus = 1\n'), 'parse_buf 1 ' + hx(b'\ns = "open\n'), 'parse_buf 0 ' + hx(b'i = 4\n'),
-          'parse_buf 0 ' + hx(b'include("bad.conf")\n')]
+          'parse_buf 0 ' + hx(b'include("bad.conf")\n'),
+          'init 3 0 0', 'parse_buf 3 ' + hx(b'mm { a = 2 }\nmm { }\n"mm=1|a" = 7\n"mm=0x0|a" = 8\n'), 'dump 3']
 
 
 def scenario(sid, hist):
-    lines = gen.prelude(SCHEMA, 0) + ['init 1 0 0'] + FILES
+    lines = gen.prelude(SCHEMA, 0) + ['init 1 0 0', 'schema 1 ' + gen.schema_sexpr(BARE)] + FILES
     for e in hist:
         lines += EVENTS[e]
     first = len(lines)
-    lines += ['init 2 0 0'] + PROBES
+    lines += PROBES
     return Scn(sid, lines, {'class': 'history-%d' % len(hist), 'hist': hist, 'first': first})
 
 
